@@ -455,3 +455,112 @@ def stage_archetypes(pid, seed, tier, workdir):
                                      "explanation": "results with the archetype over double differ from results with double: the library used something beyond the documented operations"})
     res["notes"] = {"lines_compared_bitwise": sum(len(c.lines) for c in cases)}
     return res
+
+
+# ---------------------------------------------------------------------------
+# C12: the bundled dense solver (Eigen, double) against the exactly assembled system
+# ---------------------------------------------------------------------------
+def gen_C12_eigen(seed, tier):
+    import props
+    from caselib import Case
+    rng = random.Random(seed + 1200)
+    cases = []
+    for r in range(12 if tier == 'quick' else 80):
+        c = Case(f"C12e_{r}")
+        n = rng.randint(3, 9)
+        pts = props.dyadic_grid(rng, n, -4, 4)
+        c.grid_new(0, pts)
+        w = rng.choice([w for w in props.windows(n) if w[1] - w[0] >= 2])
+        c.sup_new(1, 0, w[0], w[1])
+        size = w[1] - w[0]
+        o = rng.randint(1, 4)
+        y = [props.dyadic_coef(rng) for _ in range(size)]
+        if r % 2 == 0:
+            c.interp_eigen(10, o, 1, y)
+        else:
+            bs = [(rng.choice(['FIRST', 'LAST']), rng.randint(1, o), props.dyadic_coef(rng)) for _ in range(o - 1)]
+            # keep the system uniquely solvable: distinct (node, derivative) pairs
+            seen = set()
+            ok = True
+            for b in bs:
+                if (b[0], b[1]) in seen:
+                    ok = False
+                seen.add((b[0], b[1]))
+            c.interp_eigen(10, o, 1, y, bs if ok else None)
+        cases.append(c)
+    return cases
+
+
+def stage_fp_interp(pid, seed, tier, workdir):
+    cases = gen_C12_eigen(seed, tier)
+    wd = os.path.join(workdir, "eigen")
+    os.makedirs(wd, exist_ok=True)
+    casefile = os.path.join(wd, "cases.txt")
+    with open(casefile, "w") as f:
+        f.write("".join(c.text() for c in cases))
+    res = {"diffs": [], "infra": [], "evaluations": 0, "samples": [], "nontrivial": [], "notes": {}}
+    ok, drv, log = pipeline.build_model()
+    if not ok:
+        res["infra"].append(("model does not build", log[-3000:]))
+        return res
+    rc, ml, out = pipeline.run_model(drv, casefile)
+    ok, binp, log = pipeline.build_harness(cases, wd, "fp_double_eigen")
+    if not ok:
+        res["infra"].append((f"harness[fp_double_eigen] does not build against {REPO}", log[-6000:]))
+        return res
+    hl, crashes = pipeline.run_harness(binp)
+    eps = EPS["double"]
+    worst = 0.0
+    singular = 0
+    for c in cases:
+        for idx in c.meta.get('eigen', []):
+            k = f"{c.cid}.{idx}"
+            text = c.lines[idx - 1]
+            mt = (ml.get(k) or "").split()
+            ht = (hl.get(k) or "").split()
+            res["evaluations"] += 1
+            if not mt or mt[0] != "OK":
+                if " ".join(mt) != " ".join(ht):
+                    res["diffs"].append({"variant": "fp_double_eigen", "case": c.cid, "line": idx, "op": text, "model": ml.get(k), "impl": hl.get(k),
+                                         "history": c.lines[:idx], "oracle": "fails", "explanation": "outcome differs"})
+                continue
+            # model: OK LIST n ROW m.. b ROW ...
+            n = int(mt[2])
+            rows, pos = [], 3
+            for _ in range(n):
+                assert mt[pos] == "ROW"
+                rows.append([Fr(x) for x in mt[pos + 1:pos + 2 + n]])
+                pos += n + 2
+            if not ht or ht[0] != "OK" or "SPL" not in ht:
+                res["diffs"].append({"variant": "fp_double_eigen", "case": c.cid, "line": idx, "op": text, "model": "a spline", "impl": hl.get(k),
+                                     "history": c.lines[:idx], "oracle": "fails", "explanation": "interpolateUsingEigen did not return a spline"})
+                continue
+            # impl: OK SPL ord SUP s e size nint GRID g p.. ncoef (len c..)*
+            gi = ht.index("GRID")
+            g = int(ht[gi + 1])
+            p2 = gi + 2 + g
+            ncoef = int(ht[p2])
+            p2 += 1
+            coefs = []
+            for _ in range(ncoef):
+                ln = int(ht[p2])
+                coefs += [hex_to_fraction(t) for t in ht[p2 + 1:p2 + 1 + ln]]
+                p2 += 1 + ln
+            if len(coefs) != n or any(v is None for v in coefs):
+                res["diffs"].append({"variant": "fp_double_eigen", "case": c.cid, "line": idx, "op": text, "model": f"{n} coefficients", "impl": f"{len(coefs)} finite coefficients",
+                                     "history": c.lines[:idx], "oracle": "fails", "explanation": "wrong number of / non-finite coefficients"})
+                continue
+            # skip (nearly) singular systems: exact solvability is a premise of the property
+            from fractions import Fraction
+            resid = max(abs(sum(r[j] * coefs[j] for j in range(n)) - r[n]) for r in rows)
+            scale = max(sum(abs(r[j]) for j in range(n)) for r in rows) * max(abs(v) for v in coefs) + max(abs(r[n]) for r in rows)
+            ratio = float(resid / (eps * scale)) if scale else 0.0
+            worst = max(worst, ratio)
+            res["nontrivial"].append(text)
+            if ratio > 2 ** 20:
+                res["diffs"].append({"variant": "fp_double_eigen", "case": c.cid, "line": idx, "op": text, "model": "residual at backward-error level",
+                                     "impl": f"normwise residual {ratio:.3e} eps", "history": c.lines[:idx], "oracle": "fails",
+                                     "explanation": f"||M c - b|| = {float(resid):.3e} exceeds 2^20 eps (||M|| ||c|| + ||b||) = {float(2 ** 20 * eps * scale):.3e}: the returned spline violates the interpolation conditions beyond the solver's backward-error level (M, b are the exactly assembled system of the proved model)"})
+    res["notes"] = {"worst_normwise_backward_error_in_eps": worst, "threshold": 2 ** 20, "systems": res["evaluations"]}
+    res["samples"] = [{"case": cases[0].cid, "ops": cases[0].lines}]
+    return res
